@@ -39,6 +39,7 @@ let dispatch (name : string) (args : M.n list) : M.n list list =
   | "C20" -> M.run_c20 args
   | "C14" -> M.run_c14 args
   | "DBGT" -> M.run_dbgt args
+  | "DBGS" -> M.run_dbgs args
   | _ -> failwith ("unknown case kind " ^ name)
 
 let () =
